@@ -15,7 +15,7 @@ ASSUMPTIONS = ['Euler round trip compared modulo 2 pi with tolerance 1e-12 / cos
                'powers: 1e-10 for angles >= 1e-2, 1e-6 below (same arccos conditioning, amplified by |a| <= 3)', 'powers: q**a compared as a rotation (sign-agnostic) AND as a quaternion for |a theta| <= pi (principal branch)',
                'exp(log q) = q: 1e-12 for angles >= 1e-2, 1e-7 below (the logarithm uses arccos of the scalar part, absolute error eps/sin(theta/2))',
                'matrix <-> axis-angle parameter comparison near 0 and pi is not made: arccos of the trace loses half of the digits there']
-REQUIRED_CLASSES = ['rpy', 'rpy:degrees', 'axang', 'explog:unit', 'explog:nonunit', 'pow', 'pow-pairs', 'seq len1', 'seq len2', 'seq len3', 'log:small', 'log:regular']
+REQUIRED_CLASSES = ['rpy', 'rpy:degrees', 'axang', 'explog:unit', 'explog:nonunit', 'pow', 'pow-pairs', 'seq len1', 'seq len2', 'seq len3', 'log:small', 'log:regular', 'orders-and-objects', 'keyword-order']
 
 PI = math.pi
 RY = [-PI + 1e-9, -3.0, -PI / 2, -1.0, -1e-3, -1e-9, 0.0, 1e-9, 1e-3, 0.7, PI / 2, 2.0, 2.5, 3.0, PI - 1e-9, PI]     # roll / yaw, 16
@@ -376,6 +376,73 @@ def job_seq(ctx, lo, hi):
     ctx.sample({'sequence': _sequences()[lo], 'angles': SEQ_ANG[:len(_sequences()[lo])]})
 
 
+def job_orders_and_objects(ctx, lo, hi):
+    """(1) A scalar-last (order='S') object stands for the same quaternion as the Hamilton-ordered object built from the rolled components:
+    to_axang, to_angles, logarithm, exponential and ** answer exactly what the Hamilton-ordered object answers (all of them return
+    scalar-first arrays).  (2) The conversions are read-only: the object holds the same numbers afterwards and a second call gives the
+    same answer.  (3) DCM(x=, y=, z=) does not depend on the order in which the keywords are written."""
+    _set_tier(ctx)
+    from ahrs import Quaternion, DCM
+    cases = _axang_cases()[lo:hi]
+    for ia, n, ang in cases:
+        if not (1e-6 <= ang <= PI - 1e-6):
+            continue
+        q = rq.axang2q(n, ang)
+        key = f'axis{ia} angle={ang:.13g}'
+        H = Quaternion(q.copy())
+        S = Quaternion(np.roll(q, -1).copy(), order='S')
+        h0, s0 = np.array(H, float), np.array(S, float)          # the numbers the objects hold (normalised on construction)
+        tl = 1e-12 if ang >= 1e-2 else 1e-6                        # arccos conditioning of the logarithm, times |a| <= 3
+        readers = [('to_axang', lambda Q_: np.concatenate([np.ravel(np.asarray(x, float)) for x in Q_.to_axang()])),
+                   ('to_angles', lambda Q_: np.asarray(Q_.to_angles(), float)),
+                   ('logarithm', lambda Q_: np.asarray(Q_.logarithm, float)), ('log', lambda Q_: np.asarray(Q_.log, float)),
+                   ('exponential', lambda Q_: np.asarray(Q_.exponential, float)), ('exp', lambda Q_: np.asarray(Q_.exp, float))]
+        readers += [(f'**{a:.6g}', lambda Q_, a=a: np.asarray(Q_ ** a, float)) for a in EXPO]
+        for nm, fn in readers:
+            ctx.evals += 1
+            try:
+                h1 = fn(H)
+                s1 = fn(S)
+                h2 = fn(H)
+                s2 = fn(S)
+            except Exception as ex:
+                ctx.fail(f'{nm} raises on an object it answered for / on the scalar-last twin', key, repr(ex)[:160], 'an answer'); continue
+            ctx.close(s1, h1, tl, f"Quaternion(order='S').{nm} = the Hamilton-ordered object's answer", key)
+            ctx.expect(np.array_equal(h1, h2, equal_nan=True) and np.array_equal(s1, s2, equal_nan=True), f'{nm}: a second call on the same object gives the same answer', key, [h2, s2], [h1, s1])
+            ctx.expect(np.array_equal(np.asarray(H, float), h0) and np.array_equal(np.asarray(H.A, float), h0) and np.array_equal(np.asarray(S, float), s0),
+                       f'{nm} is read-only: the object holds the same numbers afterwards', key, [np.asarray(H, float), np.asarray(S, float)], [h0, s0])
+            if not np.array_equal(np.asarray(H, float), h0) or not np.array_equal(np.asarray(S, float), s0):
+                H = Quaternion(q.copy()); S = Quaternion(np.roll(q, -1).copy(), order='S')
+        Rref = rq.axang2R(n, ang)
+        D = DCM(Rref.copy())
+        for nm, fn in (('to_axisangle', lambda: np.concatenate([np.ravel(np.asarray(x, float)) for x in D.to_axisangle()])), ('log', lambda: np.asarray(D.log, float)),
+                       ('to_angles', lambda: np.asarray(D.to_angles(), float)), ('to_rpy', lambda: np.asarray(D.to_rpy(), float))):
+            try:
+                r1 = fn(); r2 = fn()
+            except Exception as ex:
+                ctx.outcome(('DCM reader raises', nm)); continue
+            ctx.expect(np.array_equal(r1, r2, equal_nan=True) and np.array_equal(np.asarray(D, float), Rref), f'DCM.{nm} is read-only and repeatable', key, [r2, np.asarray(D, float)], [r1, Rref])
+        ctx.cls('orders-and-objects')
+        ctx.seen(('orders', ia, ang))
+    if lo == 0:
+        for angs in itertools.product(SEQ_ANG[:5], repeat=3):
+            val = dict(zip('xyz', angs))
+            for L in (2, 3):
+                for names in itertools.permutations('xyz', L):
+                    if list(names) == sorted(names):
+                        continue
+                    kw = {c: val[c] for c in names}                 # keywords in THIS order
+                    kw0 = {c: val[c] for c in sorted(names)}
+                    key = f'keywords written as {list(names)} angles={[val[c] for c in names]}'
+                    ctx.close(np.asarray(DCM(**kw)), np.asarray(DCM(**kw0)), 0.0, 'DCM(x=, y=, z=) does not depend on the order in which the keywords are written', key)
+                    kd = {c: math.degrees(val[c]) for c in names}; kd['degrees'] = True
+                    ref = np.eye(3)
+                    for c in sorted(names):
+                        ref = ref @ ELEM[c](val[c])
+                    ctx.close(np.asarray(DCM(**kd)), ref, 1e-12, 'DCM(keywords in any order, degrees=True) = Rx Ry Rz of the given angles', key)
+        ctx.cls('keyword-order')
+
+
 def _set_tier(ctx):
     global THOROUGH
     THOROUGH = ctx.thorough
@@ -389,4 +456,5 @@ def run(ctx):
     jobs += [('job_pow', (lo, hi)) for lo, hi in core.chunks(n, 16 if not ctx.thorough else 48)]
     jobs += [('job_seq', (lo, hi)) for lo, hi in core.chunks(len(_sequences()), 13)]
     jobs.append(('job_explog_nonunit', ()))
+    jobs += [('job_orders_and_objects', (lo, hi)) for lo, hi in core.chunks(n, 8 if not ctx.thorough else 32)]
     core.run_jobs(ctx, __name__, jobs)
